@@ -8,7 +8,7 @@ def _hook_commits():
     except Exception:
         return []
 
-CLAIMED_IDS = ['C01', 'C02', 'C07', 'C08', 'C10', 'C12', 'C15', 'C16']
+CLAIMED_IDS = ['C01', 'C02', 'C03', 'C04', 'C07', 'C08', 'C10', 'C12', 'C15', 'C16']
 
 HOOKS = {
     'guard': 'cargo feature `verif` (cfg(feature = "verif"))',
@@ -51,13 +51,19 @@ CLAIMED = {
     'C16': {'engine': 'engine-b-mirse', 'design_ref': 'DESIGN.md section 4 C16',
             'text': 'log level: a torn tail is end-of-file and costs only the torn record (O12.3 with the cut inside the last fragment); records appended after a torn tail (O16.2) - known finding D1c',
             'note': B_NOTE + '; DB::recover_wal_records and manifest reuse are not encoded', 'technique': TECH},
+    'C03': {'engine': 'engine-b-mirse', 'design_ref': 'DESIGN.md section 4 C03',
+            'text': 'solver-decided mechanisms behind frozen snapshots: Table::get honours the sequence bound and keeps older files searchable (O1.6 = O3.1); a table compaction is bounded by the OLDEST live snapshot (O3.2a); the merge keep/drop rule preserves what every snapshot >= that bound sees (O3.2b)',
+            'note': B_NOTE + '; pinning of files by live versions (obsolete-file deletion) and reader/compaction interleavings are not covered', 'technique': TECH},
+    'C04': {'engine': 'engine-b-mirse', 'design_ref': 'DESIGN.md section 4 C04',
+            'text': 'k-way merge layer only: MergingIterator (with CachingIterator inlined) equals the cursor over the merged sorted array for every interleaving of <= 4 entries in <= 3 children and every cursor pattern of length <= 4 incl. all direction reversals and seeks (O4.1)',
+            'note': B_NOTE + '; the collapse of internal entries to user-visible ones (DatabaseIterator) and block/table level iterators are not covered by this check', 'technique': TECH},
     'C07': {'engine': 'engine-b-mirse', 'design_ref': 'DESIGN.md section 4 C07',
             'text': 'solver-decided obligations on compaction input selection: hull of several files (O7.1, known finding D4), overlapping inputs incl. level-0 range expansion and its termination (O7.2), boundary files (O7.3), overlap test (O7.4a), base-level test for tombstones (O7.4b), memtable output level (O7.4c)',
             'note': B_NOTE, 'technique': 'symbolic execution of rustc MIR + z3 (SMT), cvc5 cross-check, native replay of counterexamples'},
 }
 
 _NOT_YET = 'obligations for this property are designed (DESIGN.md section 4) but not yet registered in this commit'
-NOT_APPLICABLE = {pid: _NOT_YET for pid in ['C03', 'C04', 'C05', 'C06', 'C09', 'C11', 'C13', 'C14']}
+NOT_APPLICABLE = {pid: _NOT_YET for pid in ['C05', 'C06', 'C09', 'C11', 'C13', 'C14']}
 NOT_APPLICABLE['C17'] = 'the mechanism is flock(2) through the fs2 FFI on a real file descriptor plus racing threads; neither engine has a model of flock or of threads, and a contract "lock_file returns anything" decides nothing'
 
 NOTES = 'See DESIGN.md. Exit codes of ./check: 0 held (KNOWN-FINDING lines for recorded defects), 1 VIOLATION, 2 inconclusive (tool limit or non-reproducing counterexample; never reported as held).'
